@@ -39,7 +39,21 @@ type Term struct {
 	// optional interval known to contain the value (executor-side analysis used
 	// only to skip wrap-around encodings that cannot trigger)
 	Lo, Hi *big.Int
+	// derived array (executor-side): contents are given by Fn; such a term is
+	// never sent to the solver, every read is expanded (read-over-write).
+	Fn func(idx *Term) *Term
 }
+
+var narr int
+
+// MkArr builds a derived array whose element at idx is fn(idx).
+func MkArr(fn func(idx *Term) *Term) *Term {
+	narr++
+	return &Term{S: fmt.Sprintf("<arr#%d>", narr), Sort: SArr, Fn: fn}
+}
+
+// ConstArr: every element equals v.
+func ConstArr(v *Term) *Term { return MkArr(func(*Term) *Term { return v }) }
 
 // WithBounds returns a copy of t annotated with an interval.
 func WithBounds(t *Term, lo, hi *big.Int) *Term {
@@ -186,6 +200,9 @@ func Mul(a, b *Term) *Term {
 }
 
 func Eq(a, b *Term) *Term {
+	if a.Sort == SArr && (a.Fn != nil || b.Fn != nil) {
+		panic("gvc: equality on derived arrays")
+	}
 	if a.IsInt && b.IsInt {
 		return BoolLit(a.I.Cmp(b.I) == 0)
 	}
@@ -321,6 +338,9 @@ func Ite(c, a, b *Term) *Term {
 			return Not(c)
 		}
 	}
+	if a.Sort == SArr {
+		return MkArr(func(i *Term) *Term { return Ite(c, Select(a, i), Select(b, i)) })
+	}
 	r := app(a.Sort, "ite", c, a, b)
 	if a.Sort == SInt {
 		al, ah := bounds(a)
@@ -343,7 +363,12 @@ func Ite(c, a, b *Term) *Term {
 	return r
 }
 
-func Select(arr, i *Term) *Term { return app(SInt, "select", arr, i) }
+func Select(arr, i *Term) *Term {
+	if arr.Fn != nil {
+		return arr.Fn(i)
+	}
+	return app(SInt, "select", arr, i)
+}
 
 // Lambda builds (lambda ((v Int)) body) of array sort.
 func Lambda(v string, body *Term) *Term {
